@@ -122,13 +122,32 @@ def run(chk, replay):
     chk.assumptions = ["two runs of one DAG with IDENTICAL millisecond start times may be returned in either order (left open by the property)",
                        "DAG names containing a timestamp-like substring (2ddddddd.dd:dd:dd) are outside the name pool (DESIGN F3)"]
     tn = tie_names("Hist")
-    common.lean_obligations(chk, "BdModel/Props/C06.lean", {"Hist": tn})
+    common.lean_obligations(chk, "BdModel/Props/C06.lean", {"Hist": tn}, extra_props=["BdModel/Props/C06Names.lean", "BdModel/Props/C07Cache.lean"])
     binp, out = common.build_harness("hist")
     if not binp:
         chk.oblige("harness-build:hist", False, out[-3000:]); return
     chk.oblige("harness-build:hist", True)
     rng = chk.rng
     cases = []
+    if replay and ("stamp_case" in json.load(open(replay)).get("case", {}) or "cache_ops" in json.load(open(replay)).get("case", {})):
+        import x_names, x_cache
+        rc_ = json.load(open(replay))["case"]
+        (x_names if "stamp_case" in rc_ else x_cache).stream(chk, "C06", rc_); return
+    if not replay:
+        import x_names, x_cache
+        x_names.stream(chk, "C06")      # file-name / timestamp layer (Hist/Stamp.lean): real newFile / timestamp / filterLatest / latestToday = model
+        x_cache.stream(chk, "C06")      # read cache (Hist/Cache.lean): real filecache + ParseFile = model; a quiet query returns the last status
+    if replay and json.load(open(replay)).get("case", {}).get("frozen"):
+        import p_c20
+        ba, _o = common.build_harness("api")
+        p_c20.frozen_agent_stream(chk, ba, only=json.load(open(replay))["case"], view_only=True); return
+    if not replay:
+        # the look-up clause seen through the API's long-lived client (store + read cache + the callers that edit the
+        # objects they are handed): after an edit refused inside client.UpdateStatus the answers still equal the files
+        import p_c20
+        ba, _o = common.build_harness("api")
+        if ba:
+            p_c20.frozen_agent_stream(chk, ba, view_only=True)
     if replay:
         rp = json.load(open(replay)); cases = [rp["case"]["case"] if "case" in rp["case"] else rp["case"]]
     else:
@@ -196,7 +215,7 @@ def run(chk, replay):
     stat["glob_stream"] = glob_stream(chk, binp) if not replay else {}
     if dis == 0:
         chk.oblige("correspondence:hist (after every operation: every lookup, latest and recent answer for every DAG, and the file count: model = implementation)", True)
-    chk.stats = stat
+    chk.stats = dict(chk.stats or {}, **stat)
     chk.samples = [{"dags": c["dags"], "ops": c["ops"][:6]} for c in cases[:2]]
     chk.rule = ("op sequences (8-40 ops) over 2-4 DAG files from a name pool with spaces, dots, glob metacharacters, shared prefixes, the _c "
                 "suffix, UTF-8; start times same ms / same second / same minute / around midnight / spread; concurrent recorders on "
